@@ -329,6 +329,10 @@ class GroupBase:
             if all(item == [default] for item in idx_cross_mdls):
                 out_pre.append([default])
                 continue
+            if allow_all:
+                # all matches, from every model of the group that has any
+                out_pre.append([idx for item in idx_cross_mdls if item != [default] for idx in item])
+                continue
             for item in idx_cross_mdls:
                 if item != [default]:
                     out_pre.append(item)
